@@ -29,7 +29,7 @@ def New(f, a, nid=0): return {"e": "new", "f": f, "a": list(a), "nid": nid}
 def Fun(name, params, body): return {"e": "fun", "name": name, "params": list(params), "body": list(body), "arrow": False}
 def Arrow(params, body): return {"e": "fun", "name": "", "params": list(params), "body": list(body), "arrow": True}
 def Arr(a): return {"e": "arr", "a": list(a)}
-def Obj(ks, vs): return {"e": "obj", "ks": list(ks), "vs": list(vs)}
+def Obj(ks, vs, kd=None): return {"e": "obj", "ks": list(ks), "kd": list(kd) if kd else ["init"] * len(ks), "vs": list(vs)}
 def Comma(a): return {"e": "seq", "a": list(a)}
 def Log(x): return Call(Var("log"), [x])
 
